@@ -162,6 +162,7 @@ type c15Case struct {
 	hasRS   bool
 	hasNon  bool
 	always  bool // always-compare-med
+	wantRR  bool // the reset is a ROUTE-REFRESH (export change only)
 	guards  map[string]string // policy name -> neighbour address its statements are guarded by
 }
 
@@ -267,10 +268,15 @@ func c15GenCase(idx int, r *rand.Rand) *c15Case {
 		c.routes = append(c.routes, c15Ann{Spk: s, Spec: c.routeSpec(s, pfx)})
 	}
 
-	// ---- racing?
-	if k := r.IntN(100); k < 30 {
+	// ---- reset by ROUTE-REFRESH? racing? (decided before the program: both shape it)
+	c.wantRR = r.IntN(100) < 18
+	racingPct := 25
+	if c.wantRR {
+		racingPct = 50 // the refresh is the one reset that runs truly concurrently with other peers' updates
+	}
+	if k := r.IntN(100); k < racingPct {
 		c.racing = 1
-		if k < 12 {
+		if k < racingPct*2/5 {
 			c.racing = 2
 		}
 	}
@@ -1006,6 +1012,8 @@ func (c *c15Case) genChangeAndReset() {
 	p2 := c.p1.clone()
 	var dirs []api.PolicyDirection
 	switch k := r.IntN(10); {
+	case c.wantRR:
+		dirs = []api.PolicyDirection{c15Export}
 	case k < 4:
 		dirs = []api.PolicyDirection{c15Import}
 	case k < 8:
@@ -1045,9 +1053,9 @@ func (c *c15Case) genChangeAndReset() {
 	default:
 		c.reset.Kind = "soft-out"
 		switch k := r.IntN(10); {
-		case k < 4:
+		case c.wantRR:
 			c.reset.Kind = "route-refresh"
-		case k < 5:
+		case k < 2:
 			c.reset.Kind = "soft-both"
 		}
 	}
@@ -1068,7 +1076,11 @@ func (c *c15Case) genBursts() {
 	ns := 1 + r.IntN(len(c.peers))
 	for _, s := range r.Perm(len(c.peers))[:ns] {
 		cur := append([]string{}, have[s]...)
-		for k := 4 + r.IntN(24); k > 0; k-- {
+		nops := 4 + r.IntN(24)
+		if c.wantRR {
+			nops = 20 + r.IntN(50)
+		}
+		for k := nops; k > 0; k-- {
 			switch x := r.IntN(10); {
 			case x < 3 && len(cur) > 0: // withdraw
 				i := r.IntN(len(cur))
